@@ -26,3 +26,495 @@ Section Generic.
     destruct (hstart oc _) as [u1 [ph t| |x]]; [apply client_loop_closed|reflexivity|reflexivity].
   Qed.
 End Generic.
+
+(* ================================================================== generator life cycle (gen_closed_once) *)
+From EN Require Import Stream.EndpointSpec Conc.StreamServerSpec.
+
+Section LifeCycle.
+  Context {P C : Type}.
+  Variable M : machine P C.
+
+  Definition idle (u : @ustate P) : Prop := exists n, lrun (ulog u) = Some (None, n).
+  Definition idle_at (g : nat) (u : @ustate P) : Prop := lrun (ulog u) = Some (None, g).
+  Definition active_at (g : nat) (u : @ustate P) : Prop := lrun (ulog u) = Some (Some g, S g).
+
+  Lemma do_act_wf : forall g thrown (u u1 : @ustate P) res,
+      active_at g u -> do_act g thrown u = (u1, res) ->
+      match res with UYield _ => active_at g u1 | _ => idle_at (S g) u1 end.
+  Proof.
+    unfold do_act, pop_act, active_at, idle_at. intros g thrown u u1 res H E.
+    destruct (acts u) as [|a rest]; [|destruct a]; inversion E; subst; cbn; rewrite H; cbn;
+      rewrite ?Nat.eqb_refl; reflexivity.
+  Qed.
+
+  Lemma ustart_wf : forall g (u u1 : @ustate P) res,
+      idle_at g u -> ustart g u = (u1, res) ->
+      match res with UYield _ => active_at g u1 | _ => idle_at (S g) u1 end.
+  Proof.
+    unfold ustart. intros g u u1 res H E. eapply do_act_wf; [|exact E].
+    unfold active_at, idle_at in *. cbn. rewrite H. cbn. rewrite Nat.eqb_refl. reflexivity.
+  Qed.
+
+  Lemma uresume_wf : forall g ev now (u u1 : @ustate P) res,
+      active_at g u -> uresume g ev now u = (u1, res) ->
+      match res with UYield _ => active_at g u1 | _ => idle_at (S g) u1 end.
+  Proof.
+    unfold uresume. intros g ev now u u1 res H E.
+    assert (A : active_at g (ulogev (EGot g ev now) u)).
+    { unfold active_at in *. cbn. rewrite H. cbn. rewrite Nat.eqb_refl. reflexivity. }
+    destruct ev as [p|x]; (eapply do_act_wf; [|exact E]); [|exact A].
+    unfold usend. destruct (closed _); exact A.
+  Qed.
+
+  Definition hres_wf (u1 : @ustate P) (res : hres) : Prop :=
+    match res with HYielded ph _ => active_at (phase_gen ph) u1 | _ => idle u1 end.
+
+  Lemma idle_disc : forall g (u : @ustate P), idle_at g u -> idle (ulogev EOnDisc u).
+  Proof. unfold idle_at, idle. intros g u H. exists g. cbn. rewrite H. reflexivity. Qed.
+
+  Lemma handle_loop_wf : forall g (u u1 : @ustate P) res,
+      idle_at g u -> handle_loop g u = (u1, res) -> hres_wf u1 res.
+  Proof.
+    unfold handle_loop. intros g u u1 res H E.
+    destruct (closed u).
+    - inversion E; subst. eapply idle_disc; eauto.
+    - destruct (ustart g u) as [u2 r] eqn:Es. pose proof (ustart_wf _ _ _ _ H Es) as W.
+      destruct r; inversion E; subst; cbn; auto; eapply idle_disc; eauto.
+  Qed.
+
+  Lemma hstart_wf : forall oc acts0 (u1 : @ustate P) res,
+      hstart oc {| acts := acts0; closed := false; ulog := []; wire := [] |} = (u1, res) -> hres_wf u1 res.
+  Proof.
+    unfold hstart. intros oc acts0 u1 res E.
+    set (u0 := ulogev EOnConn _) in E.
+    assert (I0 : idle_at 0 u0) by reflexivity.
+    destruct oc as [|[|oc]].
+    - eapply handle_loop_wf; eauto.
+    - destruct (ustart 0 u0) as [u2 r] eqn:Es. pose proof (ustart_wf _ _ _ _ I0 Es) as W.
+      destruct r.
+      + inversion E; subst. exact W.
+      + eapply handle_loop_wf; eauto.
+      + inversion E; subst. exists 1. exact W.
+    - eapply handle_loop_wf; [|exact E]. exact I0.
+  Qed.
+
+  Lemma hresume_wf : forall ph ev now (u u1 : @ustate P) res,
+      active_at (phase_gen ph) u -> hresume ph ev now u = (u1, res) -> hres_wf u1 res.
+  Proof.
+    unfold hresume. intros ph ev now u u1 res H E.
+    destruct (uresume (phase_gen ph) ev now u) as [u2 r] eqn:Er.
+    pose proof (uresume_wf _ _ _ _ _ _ H Er) as W.
+    destruct r.
+    - inversion E; subst. exact W.
+    - eapply handle_loop_wf; eauto.
+    - destruct ph; inversion E; subst; cbn.
+      + eexists; exact W.
+      + eapply idle_disc; eauto.
+  Qed.
+
+  Lemma hclose_wf : forall ph (u : @ustate P), active_at (phase_gen ph) u -> idle (hclose ph u).
+  Proof.
+    unfold hclose, active_at. intros ph u H.
+    assert (A : idle_at (S (phase_gen ph)) (ulogev (EClosed (phase_gen ph)) u)).
+    { unfold idle_at. cbn. rewrite H. cbn. rewrite Nat.eqb_refl. reflexivity. }
+    destruct ph; [eexists; exact A|eapply idle_disc; exact A].
+  Qed.
+
+  (* ---- every yield consumes an action of the strategy: the fuel of the client loop suffices *)
+  Definition alen (u : @ustate P) : nat := length (acts u).
+
+  Lemma do_act_len : forall g thrown (u u1 : @ustate P) res,
+      do_act g thrown u = (u1, res) ->
+      alen u1 <= alen u /\ (forall t, res = UYield t -> alen u1 < alen u).
+  Proof.
+    unfold do_act, pop_act, alen. intros g thrown u u1 res E.
+    destruct (acts u) as [|a rest] eqn:Ea; [|destruct a]; inversion E; subst; cbn; rewrite ?Ea; cbn; split; try lia; intros; try discriminate; lia.
+  Qed.
+
+  Lemma ustart_len : forall g (u u1 : @ustate P) res,
+      ustart g u = (u1, res) -> alen u1 <= alen u /\ (forall t, res = UYield t -> alen u1 < alen u).
+  Proof. unfold ustart. intros g u u1 res E. apply do_act_len in E. exact E. Qed.
+
+  Lemma uresume_len : forall g ev now (u u1 : @ustate P) res,
+      uresume g ev now u = (u1, res) -> alen u1 <= alen u /\ (forall t, res = UYield t -> alen u1 < alen u).
+  Proof.
+    unfold uresume. intros g ev now u u1 res E. destruct ev; apply do_act_len in E; auto.
+    unfold usend in E. destruct (closed _); exact E.
+  Qed.
+
+  Lemma handle_loop_len : forall g (u u1 : @ustate P) res,
+      handle_loop g u = (u1, res) -> alen u1 <= alen u /\ (forall ph t, res = HYielded ph t -> alen u1 < alen u).
+  Proof.
+    unfold handle_loop. intros g u u1 res E. destruct (closed u).
+    - inversion E; subst. split; [reflexivity|discriminate].
+    - destruct (ustart g u) as [u2 r] eqn:Es. apply ustart_len in Es. destruct Es as [L1 L2].
+      destruct r; inversion E; subst; cbn; split; auto; try discriminate.
+      intros. eapply L2; reflexivity.
+  Qed.
+
+  Lemma hresume_len : forall ph ev now (u u1 : @ustate P) ph' t',
+      hresume ph ev now u = (u1, HYielded ph' t') -> alen u1 < alen u.
+  Proof.
+    unfold hresume. intros ph ev now u u1 ph' t' E.
+    destruct (uresume (phase_gen ph) ev now u) as [u2 r] eqn:Er. apply uresume_len in Er. destruct Er as [L1 L2].
+    destruct r.
+    - inversion E; subst. eapply L2; reflexivity.
+    - apply handle_loop_len in E. destruct E as [_ E]. specialize (E _ _ eq_refl). unfold alen in *. lia.
+    - destruct ph; inversion E.
+  Qed.
+
+  Lemma hstart_len : forall oc (u u1 : @ustate P) res, hstart oc u = (u1, res) -> alen u1 <= alen u.
+  Proof.
+    unfold hstart. intros oc u u1 res E. destruct oc as [|[|oc]].
+    - apply handle_loop_len in E. apply E.
+    - destruct (ustart 0 (ulogev EOnConn u)) as [u2 r] eqn:Es. apply ustart_len in Es. destruct Es as [L1 _].
+      destruct r; try (inversion E; subst; exact L1).
+      apply handle_loop_len in E. destruct E as [E _]. unfold alen in *. cbn in *. lia.
+    - apply handle_loop_len in E. apply E.
+  Qed.
+
+  Lemma client_loop_wf : forall fuel ph t c o now (u : @ustate P),
+      active_at (phase_gen ph) u -> alen u < fuel ->
+      idle (f_user (client_loop M fuel ph t c o now u)).
+  Proof.
+    induction fuel; intros ph t c o now u H Hf; [lia|].
+    cbn [client_loop].
+    destruct (closed u); [apply hclose_wf; exact H|].
+    destruct (rq_next M t c o now) as [[[c' o'] now'] a].
+    assert (G : forall ev, idle (f_user
+              match hresume ph ev now' u with
+              | (u1, HYielded ph' t') => client_loop M fuel ph' t' c' o' now' u1
+              | (u1, HFinished) => finish u1 None o' now'
+              | (u1, HRaised x') => finish u1 (Some x') o' now'
+              end)).
+    { intros ev. destruct (hresume ph ev now' u) as [u1 res] eqn:Eh.
+      pose proof (hresume_wf _ _ _ _ _ _ H Eh) as W.
+      destruct res; cbn in W |- *; auto.
+      apply hresume_len in Eh. apply IHfuel; [exact W|lia]. }
+    destruct a as [p|x|]; [apply G|apply G|apply hclose_wf; exact H].
+  Qed.
+
+  Lemma client_coroutine_wf : forall oc acts0 c o,
+      idle (f_user (client_coroutine M oc acts0 c o)).
+  Proof.
+    intros. unfold client_coroutine.
+    destruct (hstart oc _) as [u1 res] eqn:E.
+    pose proof (hstart_wf _ _ _ _ E) as W. pose proof (hstart_len _ _ _ _ E) as L. unfold alen in L. cbn in L.
+    destruct res; [apply client_loop_wf; [exact W|unfold alen; lia]|exact W|exact W].
+  Qed.
+End LifeCycle.
+
+(* ================================================================== requests exactly once, in order *)
+Section Requests.
+  Context {P C : Type}.
+  Variable M : machine P C.
+  Variable spec : bytes -> list (nres P).
+  Variable R : C -> bytes -> nat -> Prop.
+  Hypothesis OK : consumer_ok M spec R.
+
+  Definition nact_ev (a : @nact P) : option (nres P) :=
+    match a with
+    | NSend p => Some (RPkt p)
+    | NThrow (XParse e) => Some (RErr e)
+    | NThrow XCrash => Some RCrash
+    | _ => None
+    end.
+
+  Definition rq_post (d : bytes) (k : nat) (o : speer) (c' : C) (o' : speer) (a : @nact P) : Prop :=
+    exists x,
+      match a with
+      | NStop => x = sstream_of o /\ R c' (d ++ x) k /\ k = length (spec (d ++ x))
+      | _ => x ++ sstream_of o' = sstream_of o /\
+             match nact_ev a with
+             | Some e => nth_error (spec (d ++ x)) k = Some e /\ R c' (d ++ x) (S k)
+             | None => a <> NThrow XHandler /\ R c' (d ++ x) k /\ k = length (spec (d ++ x))
+             end
+      end.
+
+  Lemma sstream_of_data : forall ch a o, ch <> [] -> sstream_of (SData ch a :: o) = ch ++ sstream_of o.
+  Proof. intros [|b ch] a o H; [congruence|reflexivity]. Qed.
+
+  Lemma stake_rest : forall (avail : bytes) n a o',
+      1 <= n <= length avail ->
+      let o'' := if Nat.ltb n (length avail) then SData (skipn n avail) a :: o' else o' in
+      firstn n avail ++ sstream_of o'' = avail ++ sstream_of o' /\ speer_size o'' < S (length avail) + speer_size o'.
+  Proof.
+    intros avail n a o' Hn. simpl. destruct (Nat.ltb n (length avail)) eqn:E.
+    - apply Nat.ltb_lt in E. rewrite sstream_of_data.
+      + rewrite app_assoc, firstn_skipn. split; [reflexivity|]. simpl. rewrite skipn_length. lia.
+      + intro H0. apply (f_equal (@length _)) in H0. rewrite skipn_length in H0. simpl in H0. lia.
+    - apply Nat.ltb_ge in E. rewrite firstn_all2 by lia. split; [reflexivity|lia].
+  Qed.
+
+  Lemma nact_of_event : forall r : nres P, r <> RStop -> nact_ev (nact_of r) = Some r /\ nact_of r <> NStop.
+  Proof. destruct r; intros H; try congruence; split; try reflexivity; discriminate. Qed.
+
+  Lemma rq_loop_inv : forall fuel dl c o now d k c' o' now' a,
+      speer_size o < fuel -> R c d k -> k = length (spec d) ->
+      rq_loop M fuel dl c o now = (c', o', now', a) ->
+      rq_post d k o c' o' a.
+  Proof.
+    induction fuel; intros dl c o now d k c' o' now' a Hf HR Hk H; [lia|].
+    cbn [rq_loop] in H. destruct o as [|it o1].
+    - inversion H; subst. exists []. rewrite app_nil_r. auto.
+    - destruct (match dl with Some d0 => Nat.ltb now (sitem_at it) && Nat.leb d0 (sitem_at it) | None => false end).
+      { inversion H; subst. exists []. rewrite app_nil_r. cbn. repeat split; auto. discriminate. }
+      destruct it as [ch at_|at_|kk at_].
+      + destruct ch as [|b ch].
+        { inversion H; subst. exists []. rewrite app_nil_r. auto. }
+        destruct (ok_take _ _ _ OK c d k (b :: ch) HR Hk ltac:(discriminate)) as (c1 & r1 & n & room & Et & Hn & Hpost).
+        rewrite Et in H. cbn [sitem_at] in H.
+        pose proof (stake_rest (b :: ch) n at_ o1 Hn) as [Hs Hsz]. cbv zeta in Hs, Hsz.
+        set (o2 := if Nat.ltb n (length (b :: ch)) then SData (skipn n (b :: ch)) at_ :: o1 else o1) in *.
+        assert (Hf2 : speer_size o2 < fuel) by (simpl in Hf; simpl in Hsz; lia).
+        assert (Hev : forall r, r <> RStop -> (c', o', a) = (c1, o2, nact_of r) ->
+                      nth_error (spec (d ++ firstn n (b :: ch))) k = Some r -> R c1 (d ++ firstn n (b :: ch)) (S k) ->
+                      rq_post d k (SData (b :: ch) at_ :: o1) c' o' a).
+        { intros r Hne E Hnth HR1. inversion E; subst. destruct (nact_of_event r Hne) as [Ne Ns].
+          exists (firstn n (b :: ch)). destruct (nact_of r) eqn:En; try congruence; (split; [exact Hs|]); rewrite Ne; auto. }
+        destruct r1 as [p|e| |].
+        * destruct Hpost. eapply (Hev (RPkt p)); eauto; [discriminate|inversion H; reflexivity].
+        * destruct Hpost. eapply (Hev (RErr e)); eauto; [discriminate|inversion H; reflexivity].
+        * destruct Hpost as [Hl HR1].
+          pose proof (IHfuel _ _ _ _ _ _ _ _ _ _ Hf2 HR1 (eq_sym Hl) H) as (x & Hx).
+          exists (firstn n (b :: ch) ++ x). rewrite app_assoc.
+          destruct a; try (destruct Hx as [Hx1 Hx2]; split; [|exact Hx2]).
+          -- rewrite <- app_assoc, Hx1. exact Hs.
+          -- rewrite <- app_assoc, Hx1. exact Hs.
+          -- rewrite Hx1. exact Hs.
+        * destruct Hpost. eapply (Hev RCrash); eauto; [discriminate|inversion H; reflexivity].
+      + inversion H; subst. exists []. rewrite app_nil_r. auto.
+      + destruct kk as [|kk]; inversion H; subst; exists []; rewrite app_nil_r; cbn; auto.
+        repeat split; auto. discriminate.
+  Qed.
+
+  Lemma rq_next_inv : forall t c o now d k c' o' now' a,
+      R c d k -> rq_next M t c o now = (c', o', now', a) -> rq_post d k o c' o' a.
+  Proof.
+    unfold rq_next. intros t c o now d k c' o' now' a HR H.
+    destruct (mdrain M c) as [c1 r1] eqn:Ed.
+    pose proof (ok_drain _ _ _ OK _ _ _ _ _ HR Ed) as Hdr.
+    assert (Hev : forall r, r <> RStop -> (c', o', a) = (c1, o, nact_of r) ->
+                  nth_error (spec d) k = Some r -> R c1 d (S k) -> rq_post d k o c' o' a).
+    { intros r Hne E Hnth HR1. inversion E; subst. destruct (nact_of_event r Hne) as [Ne Ns].
+      exists []. rewrite app_nil_r. destruct (nact_of r) eqn:En; try congruence; (split; [reflexivity|]); rewrite Ne; auto. }
+    destruct r1 as [p|e| |].
+    - destruct Hdr. eapply (Hev (RPkt p)); eauto; [discriminate|inversion H; reflexivity].
+    - destruct Hdr. eapply (Hev (RErr e)); eauto; [discriminate|inversion H; reflexivity].
+    - destruct Hdr as [Hk HR1]. eapply rq_loop_inv; eauto.
+    - destruct Hdr. eapply (Hev RCrash); eauto; [discriminate|inversion H; reflexivity].
+  Qed.
+
+  (* ---- what the handler generators have seen *)
+  Definition got (u : @ustate P) : list (nres P) := got_log (ulog u).
+
+  Lemma do_act_got : forall g thrown (u u1 : @ustate P) res, do_act g thrown u = (u1, res) -> got u1 = got u.
+  Proof.
+    unfold do_act, pop_act, got. intros g thrown u u1 res E.
+    destruct (acts u) as [|a rest]; [|destruct a]; inversion E; subst; reflexivity.
+  Qed.
+
+  Lemma ustart_got : forall g (u u1 : @ustate P) res, ustart g u = (u1, res) -> got u1 = got u.
+  Proof. unfold ustart. intros g u u1 res E. apply do_act_got in E. exact E. Qed.
+
+  Lemma uresume_got : forall g ev now (u u1 : @ustate P) res,
+      uresume g ev now u = (u1, res) -> got u1 = got u ++ got_ev ev.
+  Proof.
+    unfold uresume. intros g ev now u u1 res E. destruct ev; apply do_act_got in E; rewrite E; [|reflexivity].
+    unfold usend. destruct (closed _); reflexivity.
+  Qed.
+
+  Lemma handle_loop_got : forall g (u u1 : @ustate P) res, handle_loop g u = (u1, res) -> got u1 = got u.
+  Proof.
+    unfold handle_loop. intros g u u1 res E. destruct (closed u); [inversion E; reflexivity|].
+    destruct (ustart g u) as [u2 r] eqn:Es. apply ustart_got in Es.
+    destruct r; inversion E; subst; exact Es.
+  Qed.
+
+  Lemma hstart_got : forall oc (u u1 : @ustate P) res, hstart oc u = (u1, res) -> got u1 = got u.
+  Proof.
+    unfold hstart. intros oc u u1 res E. destruct oc as [|[|oc]].
+    - apply handle_loop_got in E. exact E.
+    - destruct (ustart 0 (ulogev EOnConn u)) as [u2 r] eqn:Es. apply ustart_got in Es.
+      destruct r; try (inversion E; subst; exact Es). apply handle_loop_got in E. rewrite E. exact Es.
+    - apply handle_loop_got in E. exact E.
+  Qed.
+
+  Lemma hresume_got : forall ph ev now (u u1 : @ustate P) res,
+      hresume ph ev now u = (u1, res) -> got u1 = got u ++ got_ev ev.
+  Proof.
+    unfold hresume. intros ph ev now u u1 res E.
+    destruct (uresume (phase_gen ph) ev now u) as [u2 r] eqn:Er. apply uresume_got in Er.
+    destruct r.
+    - inversion E; subst. exact Er.
+    - apply handle_loop_got in E. rewrite E. exact Er.
+    - destruct ph; inversion E; subst; exact Er.
+  Qed.
+
+  Lemma hclose_got : forall ph (u : @ustate P), got (hclose ph u) = got u.
+  Proof. intros [g|g] u; reflexivity. Qed.
+
+  Lemma spec_firstn_prefix : forall d x k, k <= length (spec d) -> firstn k (spec (d ++ x)) = firstn k (spec d).
+  Proof.
+    intros d x k H. destruct (ok_mono _ _ _ OK d x) as [tl E]. rewrite E, firstn_app.
+    replace (k - length (spec d)) with 0 by lia. rewrite firstn_O, app_nil_r. reflexivity.
+  Qed.
+
+  Lemma firstn_S_nth : forall {A} (l : list A) k e, nth_error l k = Some e -> firstn (S k) l = firstn k l ++ [e].
+  Proof.
+    intros A l. induction l as [|a l IH]; intros k e H; [destruct k; discriminate|].
+    destruct k; [inversion H; reflexivity|]. cbn [firstn app]. f_equal. apply IH. exact H.
+  Qed.
+
+  Definition req_post (s : bytes) (f : @final P) : Prop :=
+    (exists n, got (f_user f) = firstn n (spec s)) /\ (f_eof f = true -> got (f_user f) = spec s).
+
+  Lemma client_loop_req : forall fuel ph t c o now (u : @ustate P) d k,
+      R c d k -> k <= length (spec d) -> got u = firstn k (spec d) ->
+      req_post (d ++ sstream_of o) (client_loop M fuel ph t c o now u).
+  Proof.
+    induction fuel; intros ph t c o now u d k HR Hk Hg.
+    - split; [|discriminate]. exists k. cbn. rewrite Hg. symmetry. apply spec_firstn_prefix. exact Hk.
+    - cbn [client_loop]. destruct (closed u).
+      { split; [|discriminate]. exists k. cbn [finish finish_ f_user]. rewrite hclose_got, Hg.
+        symmetry. apply spec_firstn_prefix. exact Hk. }
+      destruct (rq_next M t c o now) as [[[c' o'] now'] a] eqn:En.
+      pose proof (rq_next_inv _ _ _ _ _ _ _ _ _ _ HR En) as (x & Hpost).
+      assert (Hres : forall ev, got_ev ev = match nact_ev a with Some e => [e] | None => [] end ->
+                a <> NStop ->
+                req_post (d ++ sstream_of o)
+                  match hresume ph ev now' u with
+                  | (u1, HYielded ph' t') => client_loop M fuel ph' t' c' o' now' u1
+                  | (u1, HFinished) => finish u1 None o' now'
+                  | (u1, HRaised x') => finish u1 (Some x') o' now'
+                  end).
+      { intros ev Hev Hns.
+        assert (Hx : x ++ sstream_of o' = sstream_of o /\
+                     match nact_ev a with
+                     | Some e => nth_error (spec (d ++ x)) k = Some e /\ R c' (d ++ x) (S k)
+                     | None => a <> NThrow XHandler /\ R c' (d ++ x) k /\ k = length (spec (d ++ x))
+                     end) by (destruct a; try congruence; exact Hpost).
+        destruct Hx as [Hx1 Hx2].
+        assert (Hk' : exists k', R c' (d ++ x) k' /\ k' <= length (spec (d ++ x)) /\
+                                 got u ++ got_ev ev = firstn k' (spec (d ++ x))).
+        { rewrite Hev. destruct (nact_ev a) as [e|].
+          - destruct Hx2 as [Hn HR2]. exists (S k). split; [exact HR2|]. split.
+            + apply nth_error_Some. congruence.
+            + rewrite (firstn_S_nth _ _ _ Hn), Hg, spec_firstn_prefix by exact Hk. reflexivity.
+          - destruct Hx2 as (_ & HR2 & Hk2). exists k. split; [exact HR2|]. split; [lia|].
+            rewrite app_nil_r, Hg, spec_firstn_prefix by exact Hk. reflexivity. }
+        destruct Hk' as (k' & HR' & Hk'' & Hg').
+        destruct (hresume ph ev now' u) as [u1 res] eqn:Eh. apply hresume_got in Eh. rewrite <- Eh in Hg'.
+        rewrite <- Hx1, app_assoc.
+        destruct res.
+        - apply (IHfuel _ _ _ _ _ _ _ _ HR' Hk'' Hg').
+        - split; [|discriminate]. exists k'. cbn. rewrite Hg'. symmetry. apply spec_firstn_prefix. exact Hk''.
+        - split; [|discriminate]. exists k'. cbn. rewrite Hg'. symmetry. apply spec_firstn_prefix. exact Hk''. }
+      destruct a as [p|xk|].
+      + apply Hres; [reflexivity|discriminate].
+      + apply Hres; [destruct xk; reflexivity|discriminate].
+      + destruct Hpost as (-> & HR2 & Hk2).
+        assert (E : got (hclose ph u) = spec (d ++ sstream_of o)).
+        { rewrite hclose_got, Hg. rewrite <- (spec_firstn_prefix d (sstream_of o) k Hk). rewrite Hk2. apply firstn_all. }
+        split; [|intros _; exact E]. exists (length (spec (d ++ sstream_of o))). cbn [finish_ f_user]. rewrite E. symmetry. apply firstn_all.
+  Qed.
+
+  Lemma client_coroutine_req : forall c0, R c0 [] 0 -> forall oc acts0 o,
+      req_post (sstream_of o) (client_coroutine M oc acts0 c0 o).
+  Proof.
+    intros c0 R0 oc acts0 o. unfold client_coroutine.
+    destruct (hstart oc _) as [u1 res] eqn:E. apply hstart_got in E. cbn in E.
+    destruct res.
+    - apply (client_loop_req _ _ _ _ _ _ _ [] 0 R0 (Nat.le_0_l _) E).
+    - split; [|discriminate]. exists 0. cbn. exact E.
+    - split; [|discriminate]. exists 0. cbn. exact E.
+  Qed.
+End Requests.
+
+(* ================================================================== TimeoutError only if nothing complete arrived in time *)
+Section Timeouts.
+  Context {P C : Type}.
+  Variable M : machine P C.
+  Variable spec : bytes -> list (nres P).
+  Variable R : C -> bytes -> nat -> Prop.
+  Hypothesis OK : consumer_ok M spec R.
+
+  Definition tmo_post (dd : nat) (d : bytes) (k : nat) (o : speer) (c' : C) (o' : speer) (now' : nat) : Prop :=
+    exists x, now' = dd /\ x ++ sstream_of o' = sstream_of o /\ R c' (d ++ x) k /\ k = length (spec (d ++ x)) /\
+              match o' with it :: _ => dd <= sitem_at it | [] => False end.
+
+  Lemma nact_of_not_timeout : forall r : nres P, nact_of r <> NThrow XTimeout.
+  Proof. destruct r; discriminate. Qed.
+
+  Lemma rq_loop_timeout : forall fuel dl c o now d k c' o' now',
+      speer_size o < fuel -> R c d k -> k = length (spec d) ->
+      (match dl with Some dd => now <= dd | None => True end) ->
+      rq_loop M fuel dl c o now = (c', o', now', NThrow XTimeout) ->
+      exists dd, dl = Some dd /\ tmo_post dd d k o c' o' now'.
+  Proof.
+    induction fuel; intros dl c o now d k c' o' now' Hf HR Hk Hdl H; [lia|].
+    cbn [rq_loop] in H. destruct o as [|it o1]; [inversion H|].
+    destruct dl as [dd|].
+    - destruct (Nat.ltb now (sitem_at it)) eqn:E1; destruct (Nat.leb dd (sitem_at it)) eqn:E2; cbn [andb] in H.
+      { inversion H; subst. exists dd. split; [reflexivity|]. exists []. rewrite app_nil_r.
+        apply Nat.leb_le in E2. repeat split; auto. lia. }
+      all: assert (Hnow : Nat.max now (sitem_at it) <= dd)
+        by (try apply Nat.ltb_ge in E1; try apply Nat.leb_gt in E2; try apply Nat.ltb_lt in E1; lia).
+      all: destruct it as [ch at_|at_|kk at_]; [|inversion H|destruct kk; inversion H].
+      all: destruct ch as [|b ch]; [inversion H|].
+      all: destruct (ok_take _ _ _ OK c d k (b :: ch) HR Hk ltac:(discriminate)) as (c1 & r1 & n & room & Et & Hn & Hpost).
+      all: rewrite Et in H; cbn [sitem_at] in H, Hnow.
+      all: pose proof (stake_rest (b :: ch) n at_ o1 Hn) as [Hs Hsz]; cbv zeta in Hs, Hsz.
+      all: set (o2 := if Nat.ltb n (length (b :: ch)) then SData (skipn n (b :: ch)) at_ :: o1 else o1) in *.
+      all: assert (Hf2 : speer_size o2 < fuel) by (simpl in Hf; simpl in Hsz; lia).
+      all: destruct r1 as [p|e| |]; try (inversion H; fail).
+      all: destruct Hpost as [Hl HR1].
+      all: destruct (IHfuel (Some dd) _ _ _ _ _ _ _ _ Hf2 HR1 (eq_sym Hl) Hnow H) as (dd' & Edd & x & Hx1 & Hx2 & Hx3 & Hx4 & Hx5).
+      all: injection Edd as Edd'; rewrite <- Edd' in *; clear Edd'; exists dd; split; [reflexivity|].
+      all: exists (firstn n (b :: ch) ++ x); rewrite app_assoc; repeat split; auto.
+      all: rewrite <- app_assoc, Hx2; exact Hs.
+    - cbn in H.
+      destruct it as [ch at_|at_|kk at_]; [|inversion H|destruct kk; inversion H].
+      destruct ch as [|b ch]; [inversion H|].
+      destruct (ok_take _ _ _ OK c d k (b :: ch) HR Hk ltac:(discriminate)) as (c1 & r1 & n & room & Et & Hn & Hpost).
+      rewrite Et in H. cbn [sitem_at] in H.
+      pose proof (stake_rest (b :: ch) n at_ o1 Hn) as [Hs Hsz]. cbv zeta in Hs, Hsz.
+      set (o2 := if Nat.ltb n (length (b :: ch)) then SData (skipn n (b :: ch)) at_ :: o1 else o1) in *.
+      assert (Hf2 : speer_size o2 < fuel) by (simpl in Hf; simpl in Hsz; lia).
+      destruct r1 as [p|e| |]; try (inversion H; fail).
+      destruct Hpost as [Hl HR1].
+      destruct (IHfuel None _ _ _ _ _ _ _ _ Hf2 HR1 (eq_sym Hl) I H) as (dd' & Edd & _). discriminate.
+  Qed.
+
+  Lemma rq_next_timeout : forall t c o now d k c' o' now',
+      R c d k -> rq_next M t c o now = (c', o', now', NThrow XTimeout) ->
+      exists tm x, t = Some tm /\ now' = now + tm /\ x ++ sstream_of o' = sstream_of o /\
+                   R c' (d ++ x) k /\ k = length (spec (d ++ x)) /\
+                   match o' with it :: _ => now + tm <= sitem_at it | [] => False end.
+  Proof.
+    unfold rq_next. intros t c o now d k c' o' now' HR H.
+    destruct (mdrain M c) as [c1 r1] eqn:Ed.
+    pose proof (ok_drain _ _ _ OK _ _ _ _ _ HR Ed) as Hdr.
+    destruct r1 as [p|e| |]; try (inversion H; fail).
+    destruct Hdr as [Hk HR1].
+    destruct t as [tm|].
+    - destruct (rq_loop_timeout _ (Some (now + tm)) _ _ _ _ _ _ _ _ (Nat.lt_succ_diag_r _) HR1 Hk (Nat.le_add_r now tm) H)
+        as (dd & Edd & x & Hx1 & Hx2 & Hx3 & Hx4 & Hx5).
+      cbn in Edd. injection Edd as Edd'. rewrite <- Edd' in *. exists tm, x. repeat split; auto.
+    - destruct (rq_loop_timeout _ None _ _ _ _ _ _ _ _ (Nat.lt_succ_diag_r _) HR1 Hk I H) as (dd & Edd & _). discriminate.
+  Qed.
+End Timeouts.
+
+From EN Require Import Frame.ReadUntil Proofs.C03_fixed.
+
+Lemma fixed_requests_in_order :
+  forall (P : Type) (size : nat) (dec : decoder P) (bufsize : nat), 0 < size -> 0 < bufsize ->
+  forall (oc : nat) (acts0 : list hact) (o : speer),
+    let f := client_coroutine (copy_machine (rx_framer size dec) bufsize) oc acts0 (cinit (rx_framer size dec)) o in
+    (exists n, got_log (ulog (f_user f)) = firstn n (fx_spec size dec (sstream_of o)))
+    /\ (f_eof f = true -> got_log (ulog (f_user f)) = fx_spec size dec (sstream_of o)).
+Proof.
+  intros P size dec bufsize Hs Hb oc acts0 o.
+  apply (client_coroutine_req (copy_machine (rx_framer size dec) bufsize) (fx_spec size dec) (fx_R size dec)
+           (fx_consumer_ok size dec bufsize Hs Hb) (cinit (rx_framer size dec)) (fx_R_init size dec bufsize Hs Hb)).
+Qed.
